@@ -58,5 +58,21 @@ CHECKS["C15"] = dict(level="model_checking", design_ref="DESIGN.md 5/C15",
          "and overlaps of rhf/uhf/ghf/noci are unchanged when Hamiltonian, trial and walker are rotated by an orthogonal matrix "
          "(fully symbolic Cayley parametrisation at norb 2, exact rational instances at norb 3).",
     note=_WF_NOTE)
-for k in ("C01","C02","C03","C04","C09","C15"): NA.pop(k, None)
+CHECKS["C19"] = dict(level="model_checking", design_ref="DESIGN.md 5/C19",
+    technique="path exploration of the real NumPy code on symbolic reals (z3-decided branches) + z3 nonlinear real arithmetic per path",
+    text="blocking_analysis, reject_outliers and jackknife_ratios run unmodified on NumPy object arrays of symbolic reals/complex numbers; "
+         "every feasible path is enumerated (branch feasibility by z3) and on each path the outputs equal independently written definitions "
+         "(weighted mean, unbiased weighted variance / (nblocks-1), documented plateau rule, sorting-network median and MAD, brute-force "
+         "leave-one-out) for ALL sample values within the size bound; invariance under weight rescaling / energy shift is an identity of "
+         "those definitions. The statistical-validity clauses are not solver questions and are not claimed.",
+    note="Trusted: z3 NRA; PX shims (np.zeros/ones return object arrays inside stat_utils); exact reals for floats. n <= 6 (7-8 thorough).")
+CHECKS["C20"] = dict(level="model_checking", design_ref="DESIGN.md 5/C20",
+    technique="real lattice methods executed on symbolic integer positions (z3 Int) with path exploration; z3 LIA obligations per enumerated size",
+    text="For every enumerated lattice size the site position is a vector of solver integers pushed through the real get_site_num / "
+         "get_nearest_neighbors; bijection with the site list, neighbour symmetry / validity / irreflexivity and agreement of the real "
+         "adjacency matrix with the neighbour relation are unsat-checked for ALL sites at once; tree_flatten/unflatten is run with "
+         "symbolic pass-through attribute values so any dropped or misplaced field is a sat; regularity, degree bounds, hash/eq and jit "
+         "round trips are closed computations per size.",
+    note="Trusted: z3 LIA; jnp.array in lattices.py treated as a container under PX. Sizes: chains 2..8, 2D sides 2..4, cubic 2..3 (quick).")
+for k in ("C01","C02","C03","C04","C09","C15","C19","C20"): NA.pop(k, None)
 ENGINES[0]["serves_properties"] = sorted(CHECKS)
